@@ -10,7 +10,7 @@ from mc import common, ea, alphabet
 
 MODULE = 'mc.props.c08'
 
-STRUCT = [c for c in alphabet.COMPONENTS if c[0] in 'sor' and c not in ('rx', 'rxy', 'rxnk', 'rx1nk')]
+STRUCT = [c for c in alphabet.COMPONENTS if c[0] in 'sor' and c not in ('rx', 'rxy', 'rxnk', 'rx1nk')] + ['drem']
 PARTNERS = ['i1', 'i2l', 'dn', 'm0', 'b35', 'p_al2']
 
 
